@@ -270,8 +270,6 @@ def run_par(desc, c, e, add, rng):
 
 
 def run_sub(desc, c, e, add, rng):
-    if c.cmode == "idx_any":
-        return None
     mc, excl = desc["max_candidates"], desc["exclude"]
     if excl and c.cmode == "feat" and c.n_labeled == 0:
         return {"skip": "exclude_non_subsample with feature rows needs a labelled sample"}
@@ -342,16 +340,25 @@ def run_sub(desc, c, e, add, rng):
             if np.asarray(icand).shape[0] != size:
                 add("subsample-wrong-size", "inner got %s feature rows, documented size %d" % (np.asarray(icand).shape, size))
         else:
-            if len(iX) != c.n_labeled + size or int(np.isnan(iy).sum()) != size:
-                add("subsample-wrong-size", "inner (X rows %d, unlabelled %d), expected %d labelled + %d sub-sampled" % (
-                    len(iX), int(np.isnan(iy).sum()), c.n_labeled, size))
+            # recover the sub-sample in the caller's index space: the wrapper reports -inf for candidates outside of it
+            row0 = U[0] if len(U) else np.array([])
+            if np.isneginf(iU).any() or not len(U):
+                T = None      # the inner strategy itself reports -inf (e.g. TypiClust): the sub-sample cannot be read off the output
             else:
-                # recover the sub-sample in the caller's index space: the wrapper reports -inf for candidates outside of it
-                row0 = U[0] if len(U) else np.array([])
-                if np.isneginf(iU).any():
-                    T = None      # the inner strategy itself reports -inf (e.g. TypiClust): the sub-sample cannot be read off the output
-                else:
-                    T = np.array([j for j in cands_sorted if not (np.isneginf(row0[j]))]) if len(U) else np.array([], int)
+                T = np.array([j for j in cands_sorted if not (np.isneginf(row0[j]))], int)
+            n_lab_cand = int(sum(1 for j in c.cset if c.lab[j]))
+            if T is not None and len(T) == size:
+                # candidates may be labelled samples (arbitrary index sets): the reduced training set is the union
+                exp_rows = len(set(np.flatnonzero(c.lab).tolist()) | set(T.tolist()))
+                exp_unl = int((~c.lab[T]).sum())
+            elif n_lab_cand == 0:
+                exp_rows, exp_unl = c.n_labeled + size, size
+            else:
+                exp_rows = exp_unl = None
+            if exp_rows is not None and (len(iX) != exp_rows or int(np.isnan(iy).sum()) != exp_unl):
+                add("subsample-wrong-size", "inner (X rows %d, unlabelled %d), expected %d rows (labelled samples and the sub-sample of %d) with %d unlabelled" % (
+                    len(iX), int(np.isnan(iy).sum()), exp_rows, size, exp_unl))
+                T = None
     # ---- outputs in the caller's index space
     ncols = len(c.candidates) if feat else c.n
     k = min(c.bs, size)
@@ -377,7 +384,7 @@ def run_sub(desc, c, e, add, rng):
                 add("indices-are-not-the-inner-result", "%s vs inner %s" % (idx.tolist(), np.asarray(iidx).tolist()))
         else:
             # inner index space: rows of X[S], S = sorted(labelled + sub-sample); inner candidates = unlabelled rows in order
-            S = np.sort(np.concatenate([np.flatnonzero(c.lab), np.array(sorted(Tset), int)])) if len(Tset) == size else None
+            S = np.array(sorted(set(np.flatnonzero(c.lab).tolist()) | Tset), int) if len(Tset) == size else None
             if S is not None and len(S) == iU.shape[1]:
                 trans = S[np.asarray(iidx, int)]
                 if trans.tolist() != idx.tolist():
@@ -466,7 +473,7 @@ def run_case(desc):
     if miss:
         return {"status": "inconclusive", "reason": "exported strategies not in registry: %s" % miss}
     def accept(cc):
-        if desc["wrapper"] in ("par", "sub") and cc.cmode == "idx_any":
+        if desc["wrapper"] == "par" and cc.cmode == "idx_any":
             return "candidate mode not applicable"
         if desc["wrapper"] == "sub" and desc["exclude"] and cc.cmode == "feat" and cc.n_labeled == 0:
             return "exclude_non_subsample with feature rows needs a labelled sample"
